@@ -33,6 +33,7 @@ fn main() {
         verbose: has("--verbose"),
         evaluations: 0,
         distinct: Default::default(),
+        distinct_extra: 0,
         counters: Default::default(),
         maxima: Default::default(),
         samples: vec![],
